@@ -15,6 +15,7 @@ from core import impl_construct
 WHITELIST = ["Conv1d", "Conv2d", "Delay", "Flatten", "Input", "NIRGraph", "Output", "Affine", "Linear", "Scale",
              "CubaLIF", "I", "IF", "LI", "LIF", "AvgPool2d", "SumPool2d", "Threshold"]
 OPTIONAL = {"metadata", "input_type", "output_type"}      # derived types are init fields with defaults
+FIELDS_OF = {}     # kind -> dataclass field names (filled in run)
 OPTIONAL_BY_KIND = {"Flatten": {"start_dim", "end_dim", "input_type"}, "CubaLIF": {"w_in"}}
 
 
@@ -27,10 +28,19 @@ def type_strings(rng, n_random):
               "calc_flatten_output", "h5py", "typing", "Types", "Nodes", "Edges"}
     out = set(names)
     for w in WHITELIST:
-        out |= {w.lower(), w.upper(), " " + w, w + " ", w + "\n", w + "\x00x", "nir." + w, w + "()", w[:-1], w + "2"}
+        for v in variants_of(w):
+            out.add(v)
     for _ in range(n_random):
         out.add("".join(rng.choice("AIFLabcNRGé键😀_ .") for _ in range(rng.randrange(0, 8))))
     return sorted(out - set(WHITELIST))
+
+
+def variants_of(w):
+    return [w.lower(), w.upper(), " " + w, w + " ", w + "   ", "\t" + w, w + "\t", w + "\n", w + "\r\n", w + "\x00x",
+            w + "\x00", "nir." + w, w + "()", w[:-1], w + "2", w.swapcase(), w + "\u00a0", "\ufeff" + w]
+
+
+VARIANT_BASE = {v: w for w in WHITELIST for v in variants_of(w) if v not in WHITELIST}
 
 
 def run(ctx):
@@ -53,6 +63,11 @@ def run(ctx):
             cases.append(c); obs.append(o); reqs.append(c)
         except Exception:
             pass
+    import dataclasses
+    for k in WHITELIST:
+        FIELDS_OF[k] = {f.name for f in dataclasses.fields(getattr(nir, k)) if f.init}
+    FIELDS_OF["Input"] = FIELDS_OF["Input"] | {"shape"}       # legacy alias accepted by Input/Output.from_dict
+    FIELDS_OF["Output"] = FIELDS_OF["Output"] | {"shape"}
     # ---- closed world: no string outside the whitelist constructs anything -------------------------
     victims = {k: impl_construct(gen.node_recipe(rng, k, meta_p=0)).to_dict() for k in gen.LEAF_KINDS}
     strings = type_strings(rng, 50 if ctx.tier == "quick" else 2000)
@@ -60,7 +75,12 @@ def run(ctx):
                                 "+ case/whitespace variants of the 18 whitelisted names")
     for s in strings:
         for where in ("top", "nested", "bare", "bare-nested"):
-            d = copy.deepcopy(victims[rng.choice(gen.LEAF_KINDS)])
+            base_kind = VARIANT_BASE.get(s)
+            if base_kind not in victims:
+                base_kind = rng.choice(gen.LEAF_KINDS)
+            # a near-miss of a whitelisted name is put on a complete dictionary of *that* class, so that
+            # normalising the tag (strip, lower, ...) would yield a well-formed node
+            d = copy.deepcopy(victims[base_kind])
             d["type"] = s
             if where.startswith("bare"):
                 d = {"type": s}            # a class without mandatory fields would be constructible from this alone
@@ -80,17 +100,45 @@ def run(ctx):
     # the same through a file
     tmpdir = tempfile.mkdtemp(prefix="nirverif-c18-", dir="/var/tmp")
     try:
-        for s in rng.sample(strings, min(len(strings), 60)):
-            if "\x00" in s:
-                continue
+        near = sorted(v for v in VARIANT_BASE if VARIANT_BASE[v] in victims)
+        file_strings = [(s, "near") for s in (near if ctx.tier != "quick" else rng.sample(near, 90))] + \
+                       [(s, "other") for s in rng.sample(strings, min(len(strings), 60))]
+        for s, cls in file_strings:
             p = os.path.join(tmpdir, "t.nir")
-            with h5py.File(p, "w") as f:
-                f.create_dataset("version", data="0.2.0")
-                n = f.create_group("node")
-                n.create_dataset("type", data=s, dtype=h5py.string_dtype())
-                n.create_dataset("weight", data=np.zeros((2, 2)))
-            case = {"op": "type_string_file", "s": s}
-            ctx.case(case); ctx.count("type_strings_file")
+            d = copy.deepcopy(victims[VARIANT_BASE[s]]) if cls == "near" else {"type": s, "weight": np.zeros((2, 2))}
+            d["type"] = s
+            nested = rng.random() < 0.4
+            if nested:
+                d = {"type": "NIRGraph", "nodes": {"a": d, "pad": copy.deepcopy(victims["Scale"])}, "edges": []}
+            for store in ("vlen", "fixed"):
+                try:
+                    with h5py.File(p, "w") as f:
+                        f.create_dataset("version", data="0.2.0")
+                        _store(f.create_group("node"), d, fixed=(store == "fixed"))
+                except Exception:
+                    ctx.count("type_strings_file_unwritable")
+                    continue
+                try:
+                    # what the file really holds (HDF5 fixed-length strings are NUL-padded/terminated, so a tag with
+                    # a trailing NUL legitimately *is* the shorter name once stored)
+                    with h5py.File(p, "r") as f:
+                        raw = f["node/nodes/a/type" if nested else "node/type"][()]
+                    held = raw.decode("utf8", "replace") if isinstance(raw, bytes) else str(raw)
+                except Exception:
+                    continue
+                if held in WHITELIST:
+                    ctx.count("type_strings_file_normalised_by_hdf5")
+                    continue
+                case = {"op": "type_string_file", "s": s, "stored_as": store, "nested": nested}
+                ctx.case(case); ctx.count("type_strings_file"); ctx.count("type_strings_file_" + cls)
+                try:
+                    obj = nir.read(p)
+                    ctx.violate(case, f"file with type {s!r} was read into an object", {"site": "read", "what": "open-world"},
+                                observed=type(obj).__name__)
+                except Exception:
+                    pass
+        for s in []:
+            case = {}
             try:
                 obj = nir.read(p)
                 ctx.violate(case, f"file with type {s!r} was read into an object", {"site": "read", "what": "open-world"},
@@ -110,14 +158,23 @@ def run(ctx):
                     base = impl_construct(gen.node_recipe(rng, kind, meta_p=0.5)).to_dict()
                 mandatory = [k for k in base if k not in OPTIONAL and k not in OPTIONAL_BY_KIND.get(kind, set())]
                 depth = rep % 3
-                for op, key in [("delete", k) for k in mandatory] + [("insert", rng.choice(["extra", "Weight", "weights", "bias2", "dtype", "shape2", "comment"]))]:
+                inserts = [rng.choice(["extra", "Weight", "weights", "bias2", "dtype", "shape2", "comment", "name", "id"]),
+                           "input_type", "output_type", "nodes", "edges", "shape", "version"]
+                for op, key in [("delete", k) for k in mandatory] + [("insert", k) for k in inserts]:
                     d = copy.deepcopy(base)
                     if op == "delete":
                         del d[key]
                     else:
-                        if key in d:
+                        if key in d or key in FIELDS_OF.get(kind, ()):
                             continue
-                        d[key] = rng.choice([1, "x", np.zeros(2)])
+                        if key in ("input_type", "output_type"):
+                            d[key] = {key.split("_")[0]: np.array([2, 2])}
+                        elif key == "nodes":
+                            d[key] = {}
+                        elif key == "edges":
+                            d[key] = []
+                        else:
+                            d[key] = rng.choice([1, "x", np.zeros(2)])
                     wrapped = d
                     for lvl in range(depth):
                         wrapped = {"type": "NIRGraph", "nodes": {"inner": wrapped, "pad": copy.deepcopy(victims["Scale"])}, "edges": []}
@@ -148,6 +205,24 @@ def run(ctx):
     finally:
         import shutil
         shutil.rmtree(tmpdir, ignore_errors=True)
+
+
+def _store(group, node, fixed=False):
+    for k, v in node.items():
+        if isinstance(v, dict):
+            _store(group.create_group(k), v, fixed)
+        elif isinstance(v, str):
+            if fixed:
+                b = v.encode("utf8")
+                group.create_dataset(k, data=np.array(b, dtype=f"S{max(len(b), 1)}"))
+            else:
+                group.create_dataset(k, data=v, dtype=h5py.string_dtype())
+        elif isinstance(v, list):
+            group.create_dataset(k, data=np.array(v, dtype=h5py.string_dtype()) if v else np.zeros((0, 2)))
+        elif v is None:
+            raise ValueError("None")
+        else:
+            group.create_dataset(k, data=v)
 
 
 def _write_raw(path, d):
